@@ -93,6 +93,9 @@ Done == l = Len(Evs) + 1
 \* second, hook-free trace source: the server's own monitor events for this peer must be the sequence the
 \* model state implies (only judged when the client saw the server's close, i.e. the list is complete)
 MonOk == Conns[c].mon_complete => (~open /\ Conns[c].mon = MonExpected)
-Report == (Done /\ MonOk) => PrintT(<<"ACC", Conns[c].id>>)
+\* the monitor-event protocol goes beyond what C01 states: an explanation of the client's log is an acceptance either
+\* way, the third field says whether the monitor events agree as well (a disagreement is reported as drift, not as a
+\* violation of C01)
+Report == Done => PrintT(<<"ACC", Conns[c].id, IF MonOk THEN 1 ELSE 0>>)
 \* all model invariants are evaluated in every state of every explanation
 =============================================================================
